@@ -46,6 +46,9 @@ def evaluate(ids):
             json.dump({"id": bid, "applies": False}, open(os.path.join(dst, "result.json"), "w"), indent=1)
             continue
         res = {"id": bid, "applies": True, "checks": {}}
+        prev = os.path.join(dst, "result.json")
+        if os.environ.get("BENIGN_SKIP_SUITE") and os.path.exists(prev):
+            res["suite"] = json.load(open(prev)).get("suite", {})     # the change itself is the same: keep the recorded suite run
         try:
             if not os.environ.get("BENIGN_SKIP_SUITE"):
                 rc, out = sh("cargo test --workspace --offline --no-fail-fast 2>&1", cwd=REPO)
